@@ -31,8 +31,12 @@ func round4Hooks(c *Ctx, id string) {
 		passwordComparedLiterally(c, "C18.h password-literal")
 	case "C20":
 		storedCopyUnconditional(c, "C20.k stored-copy-unconditional")
+		storageLoopsExhaustive(c, "C20.l storage-loops-exhaustive")
+	case "C21":
+		storageLoopsExhaustive(c, "C21.f storage-loops-exhaustive")
 	case "C22":
 		storedCopyUnconditional(c, "C22.c stored-copy-unconditional")
+		storageLoopsExhaustive(c, "C22.d storage-loops-exhaustive")
 	case "C25":
 		ackRecordsAreDated(c, "C25.j ack-records-dated")
 		sweepHasNoEarlyExit(c, "C25.k sweep-no-early-exit")
@@ -223,6 +227,41 @@ func storedCopyUnconditional(c *Ctx, rule string) {
 		}
 	}
 	c.floor(rule+" property copies in the storage hooks", n, 8)
+}
+
+// storageLoopsExhaustive: the per-filter loops of the storage hooks (OnSubscribed, OnUnsubscribed) visit every filter of
+// the packet: no return inside the loop (a refused filter is skipped with continue, not by leaving the function).
+func storageLoopsExhaustive(c *Ctx, rule string) {
+	n := 0
+	for _, b := range backends {
+		for _, m := range []string{"(*Hook).OnSubscribed", "(*Hook).OnUnsubscribed"} {
+			f := c.optFn(bpath(b), m)
+			if f == nil {
+				continue
+			}
+			var body, head *ssa.BasicBlock
+			for _, blk := range f.Blocks {
+				switch blk.Comment {
+				case "for.body", "rangeindex.body":
+					if body == nil {
+						body = blk
+					}
+				case "for.loop", "rangeindex.loop":
+					if head == nil {
+						head = blk
+					}
+				}
+			}
+			if body == nil || head == nil || len(body.Instrs) == 0 {
+				continue
+			}
+			n++
+			isHead := func(x ssa.Instruction) bool { return x.Block() == head && idxIn(x) == 0 }
+			c.noPath(rule, fmt.Sprintf("%s %s: the per-filter loop is left only when every filter was handled", b, strings.TrimPrefix(m, "(*Hook).")), f, body.Instrs[0], anyReturn, isHead, nil,
+				"a return inside the loop drops the remaining filters of the packet")
+		}
+	}
+	c.floor(rule+" per-filter loops in the storage hooks", n, 8)
 }
 
 // willQosTwoBits: ConnectDecode reads the will QoS from two bits of the connect flags (bits 3 and 4).
